@@ -2082,6 +2082,36 @@ def mt_round(ck, rn, variant, setup, scripts):
     return reports
 
 
+def protected_pass(ck, nthreads=3):
+    """Every check ends with a sample of its own executions run as concurrent threads of one process whose library
+    data segments are write-protected: an operation that keeps anything in static storage (a scratch buffer, a cache,
+    a 'last result' hint) faults deterministically, and the fault carries the property of the operation that made it.
+    (C04, C12 and C20 have rounds of their own; the checks of pure arithmetic have nothing to run.)"""
+    if ck.pid in ("C04", "C12", "C20") or ck.violations or ck.infra:
+        return
+    cands = getattr(ck, "mt_candidates", [])
+    if len(cands) < nthreads:
+        return
+    rng = Rng(ck.seed * 7919 + 13)
+    rng.shuffle(cands)
+    drop = ("enable", "inject", "exec", "find", "findsweep", "listwords", "mul2all", "polyeval", "numlangs", "projection")
+    scripts = []
+    for ex in cands:
+        lines = [l for l in ex.lines if l.split(" ", 1)[0] not in drop][:300]
+        if sum(1 for l in lines if l.split(" ", 1)[0] in API_OPS_) >= 3:
+            scripts.append(lines)
+        if len(scripts) == nthreads:
+            break
+    if len(scripts) < nthreads:
+        return
+    before = len(ck.violations)
+    mt_round(ck, 90, "mt_so", ["inject AAAAAAAA", "enable 7"], scripts)
+    ck.extra["executions_rerun_as_threads_with_library_data_write_protected"] = nthreads
+
+
+API_OPS_ = ("create", "encode", "decode", "decodex", "store", "load", "crypt", "keygen", "bday", "feat", "isenc", "free")
+
+
 def c20(ck):
     rng = Rng(ck.seed)
     quick = ck.tier == "quick"
